@@ -96,7 +96,9 @@ def execute(arg):
         def action():
             for ch in st.get_iter("0", target, processor=setting["processor"], max_workers=setting["workers"], progress_bar=False):
                 chunks.append(dict(s=ch.start, e=ch.end, rows=chunk_rows(ch, target)))
-        with warnings.catch_warnings():
+        import postoffice
+        po_tr = postoffice.Tracer() if setting["processor"] == "single_thread" else None
+        with warnings.catch_warnings(), (po_tr or __import__("contextlib").nullcontext()):
             warnings.simplefilter("ignore")
             if setting["dsched"]:
                 obs = dict(rows=None)
@@ -107,6 +109,8 @@ def execute(arg):
                     raise RuntimeError(f"{obs['exc_type']}: {obs['exc_msg']}")
             else:
                 action()
+        if po_tr is not None:
+            out["po_logs"] = po_tr.observations(completed=True)
         out["traces"].append(dict(target=target, out=chunks, what="yielded"))
         # everything the request stored: re-read by a fresh context
         after = {n.split("-")[1] for n in os.listdir(d) if len(n.split("-")) == 3 and not n.endswith("_temp")}
@@ -197,6 +201,11 @@ def run(chk):
     # the single-thread processor's bus: PostOffice.tla replayed lock-step on the real PostOffice
     import postoffice
     po_drift = postoffice.run_part(chk, "C01")
+    # ... and the office logs of the single-thread runs above judged against its P-level
+    po_obs = [dict(obs=o, key=f"target={rr['cfg']['target']} stored={sorted(rr['cfg']['stored'])} src={rr['cfg']['ch1']} #{j}",
+                   replay=dict(cfg=rr["cfg"], setting=rr["setting"], seed=work[i][2]))
+              for i, rr in enumerate(res) if not rr["err"] for j, o in enumerate(rr.get("po_logs", []))]
+    postoffice.validate_observations(chk, po_obs, "C01 configurations")
     if po_drift:
         chk.extra["postoffice_drift_note"] = ("the real PostOffice left the state graph of PostOffice.tla (internal state); the verdict is by the "
                                               "P-level clauses on the real observations")
